@@ -159,8 +159,10 @@ impl FileRunner {
                                         match self.config.format {
                                             Format::Csv => {
                                                 let mut wrt = csv::WriterBuilder::new().has_headers(false).from_writer(vec![]);
-                                                wrt.serialize(m).unwrap();
-                                                dst.write_all(&wrt.into_inner().unwrap()).await.unwrap();
+                                                match wrt.serialize(m).map_err(|e| e.to_string()).and_then(|_| wrt.into_inner().map_err(|e| e.to_string())) {
+                                                    Ok(bytes) => dst.write_all(&bytes).await.unwrap(),
+                                                    Err(e) => error!("file-out: record cannot be written as CSV: {}", e),
+                                                }
                                             }
                                             Format::Json => {
                                                 if let Ok(bytes) = serde_json::to_vec(&m) {
